@@ -38,12 +38,12 @@ class BytesV(Vec):
         raise Unsupported('bytes of %r' % (x,))
 
     @staticmethod
-    def fresh_bytes(ctx, name, n=None, nonzero=False):
+    def fresh_bytes(ctx, name, n=None, nonzero=False, bounded=True):
         if n is None:
             n = ctx.int('len(%s)' % name, report=False)
             ctx.assume(n >= 0)
             from . import nparr
-            if nparr.BOUND is not None:
+            if nparr.BOUND is not None and bounded:
                 ctx.assume(n <= nparr.BOUND)
         a = z3.Array(ctx.name(name), I, I)
         v = BytesV(n, lambda i: z3.Select(a, i), name)
@@ -90,6 +90,7 @@ def bcat(a, b, ctx=None):
     if ctx is None:
         return BytesV(z3.simplify(a.n + b.n), lambda i: z3.If(i < an, asel(i), bsel(i - an)), '(%s+%s)' % (a.name[:12], b.name[:12]))
     r = BytesV.fresh_bytes(ctx, 'cat', n=z3.simplify(a.n + b.n))
+    r.parts = getattr(a, 'parts', [a]) + getattr(b, 'parts', [b])  # structural record: r is the concatenation of these
     ctx.assume(qforall(1, lambda k: z3.Implies(z3.And(0 <= k, k < an), r.sel(k) == asel(k))))
     lit = getattr(b, 'literal', None)
     if lit is not None:
@@ -98,6 +99,27 @@ def bcat(a, b, ctx=None):
     else:
         ctx.assume(qforall(1, lambda j: z3.Implies(z3.And(0 <= j, j < b.n), r.sel(an + j) == bsel(j))))
     return r
+
+
+def parts_equal(a, b):
+    """Equality of two concatenations stated part by part (same number of parts, corresponding parts byte-wise equal);
+    pointwise equality of the wholes follows by induction over the parts (concatenation lemma, meta)."""
+    pa, pb = getattr(a, 'parts', [a]), getattr(b, 'parts', [b])
+    pa = [p for p in pa if not (z3.is_int_value(z3.simplify(p.n)) and z3.simplify(p.n).as_long() == 0)]
+    pb = [p for p in pb if not (z3.is_int_value(z3.simplify(p.n)) and z3.simplify(p.n).as_long() == 0)]
+    if len(pa) != len(pb):
+        return z3.BoolVal(False)
+    out = []
+    for x, y in zip(pa, pb):
+        if x is y:
+            continue
+        lx, ly = getattr(x, 'literal', None), getattr(y, 'literal', None)
+        if lx is not None and ly is not None:
+            if lx != ly:
+                return z3.BoolVal(False)
+            continue
+        out.append(beq(x, y))
+    return z3.And(*out) if out else z3.BoolVal(True)
 
 
 def beq(a, b):
@@ -140,14 +162,16 @@ class Sha1(Sym):
             return update
         if name == 'digest':
             def digest(ctx):
-                d = Digest(ctx, source=BytesV(self.buf.n, self.buf.sel, 'snapshot'))
+                snap = BytesV(self.buf.n, self.buf.sel, 'snapshot')
+                snap.parts = list(getattr(self.buf, 'parts', [self.buf]))
+                d = Digest(ctx, source=snap)
                 self.registry.append(d)
                 return d
             return digest
         raise Unsupported('sha1.' + name)
 
     def havoc(self, ctx, name):
-        f = BytesV.fresh_bytes(ctx, name + '.buf')
+        f = BytesV.fresh_bytes(ctx, name + '.buf', bounded=False)  # a derived buffer: its length is not an input
         self.buf = f
         return self
 
